@@ -41,7 +41,7 @@ PROPS = {
     "C16": {
         "parts": [
             {"engine": "billsim", "instrument": "internal/billstat=locks", "cfgs": ["", "nofault"], "share": 2, "chunk": 4000},
-            {"engine": "bpbsim", "instrument": BPB_INSTRUMENT, "cfgs": ["", "nofault"], "share": 1, "chunk": 300, "det_trace": False},
+            {"engine": "bpbsim", "instrument": BPB_INSTRUMENT, "cfgs": ["", "nofault", "bulk"], "share": 1, "chunk": 300, "det_trace": False},
         ],
         "quick": {"seconds": 25, "chunk": 4000, "runs": 400000},
         "thorough": {"seconds": 600, "chunk": 20000},
@@ -54,7 +54,10 @@ PROPS = {
                  "service error, an exceeded deadline, a cancellation or a broken connection.  bpbsim part: the real gRPC "
                  "uploader of internal/backendpb against a gRPC server in the bubble; 3-30 records and refreshes in sequence; "
                  "per upload the backend fails before reading, after 1-3 records, at the end, or with the deadline status; "
-                 "a batch counts as delivered when Refresh returned nil, and the backend must then have accepted all of it"),
+                 "a batch counts as delivered when Refresh returned nil, and the backend must then have accepted all of it; bulk "
+                 "sub-batch: a batch of 8000-10000 devices, several times what fixed flow-control windows and the client's write "
+                 "buffer let it send ahead, which the backend answers with OK after 1-3 records: the client sees its stream end "
+                 "with records unsent and must not report delivery"),
         "assumptions": [
             "the scheduler switches tasks only at inserted yields (harness yields, mutex acquisitions in billstat, in-flight Upload); data races inside a critical section are not explored",
             "process-kill/disk faults do not apply: the recorder is in-memory by design",
@@ -95,7 +98,7 @@ PROPS = {
             {"engine": "pdbsim",
              "instrument": "internal/profiledb=locks;internal/profiledb/internal/filecachepb=calls:renameio\\.|os\\.WriteFile|os\\.Rename",
              "modreplace": {"github.com/google/renameio/v2@v2.0.0": ".=calls:^t\\.Write$|^t\\.Sync$|os\\.Rename|CloseAtomicallyReplace"},
-             "cfgs": ["", "nocrash", "toggle"], "share": 3, "chunk": 1500},
+             "cfgs": ["", "nocrash", "toggle", "overlap"], "share": 3, "chunk": 1500},
             {"engine": "bpbsim", "instrument": BPB_INSTRUMENT, "cfgs": [""], "share": 1, "chunk": 300, "det_trace": False},
         ],
         "quick": {"seconds": 40, "chunk": 1500, "runs": 60000},
@@ -115,7 +118,8 @@ PROPS = {
                  "outside the servers' addresses; profiles it must reject: unusable blocking mode); synchronisations full or "
                  "incremental by simulated time, with the backend failing before, in the middle of or at the end of the stream, "
                  "exceeding the deadline or omitting the sync_time trailer; lookups by all four key kinds compared with the "
-                 "content of the successful synchronisations"),
+                 "content of the successful synchronisations.  pdbsim overlap sub-batch: a second caller of Refresh (as the debug API "
+                 "is next to the periodic worker) whose calls overlap the synchroniser's"),
         "assumptions": [
             "the backend stub sends, like the real one, every changed profile with all of its devices, and at most one current owner per key",
             "a lookup overlapping a refresh may see the version before or after it; exact equality is demanded from lookups that do not overlap one",
@@ -188,22 +192,28 @@ PROPS = {
     "C05": {
         "engine": "cachesim",
         "instrument": "",
-        "cfgs": ["ecs", "ecsmw"],
+        "cfgs": ["ecs", "ecsmw", "geofile"],
         "quick": {"seconds": 30, "chunk": 3000, "runs": 200000},
         "thorough": {"seconds": 900, "chunk": 10000},
         "rule": ("one run = ECS cache inside the full handler stack; 3-40 queries from a per-run subset of 7 clients (IPv4/IPv6, "
                  "locations known, unknown, known without a subnet for the family) with ECS option absent / own prefix / "
                  "foreign prefix / own address / other family / zero-length / malformed (bad family, bits beyond prefix, mask "
                  "too long), for names the upstream scopes to the subnet and names it does not, in all arrival orders and "
-                 "cache ages; upstream answers are tagged with the subnet they were computed for; non-trivial = a cache hit "
-                 "occurred; distinct = distinct decision-sequence hash"),
+                 "cache ages; upstream answers are tagged with the subnet they were computed for; the coarse subnets of the table have "
+                 "prefix lengths that are not multiples of eight and differ inside one octet; geofile sub-batch: the real geoip.File "
+                 "on the MaxMind test databases of the repository (tape-chosen top autonomous systems per run, country database "
+                 "replaced and refreshed in mid-run), judged against direct look-ups in the same databases: what goes upstream, and "
+                 "what a cache hit was computed for, is the zero prefix or a subnet of the client's (or its ECS option's) own country, "
+                 "autonomous system or the country's configured top autonomous system, never the supplied prefix or a host address; "
+                 "non-trivial = a cache hit occurred; distinct = distinct decision-sequence hash"),
         "assumptions": [
+            "geofile sub-batch: client and ECS addresses are chosen so that their whole /24 (or /56) lies in one record of every database (geoip.File caches locations per /24 and /56)",
             "the GeoIP stub maps address -> (country, ASN) -> coarse subnet per family transparently; client addresses and client-supplied prefixes are disjoint from the coarse subnets",
             "an answer the upstream computed for the zero prefix has scope zero and may be served to every client of that family",
         ],
         "components": {
-            "real": ["internal/ecscache", "dnssvc.NewHandlers stack incl. ratelimitmw request-info/ECS parsing (FORMERR path)", "dnsmsg ECS helpers"],
-            "stub": ["upstream handler (scripted, tags answers with the forwarded subnet)", "GeoIP (transparent table)"],
+            "real": ["internal/ecscache", "dnssvc.NewHandlers stack incl. ratelimitmw request-info/ECS parsing (FORMERR path)", "dnsmsg ECS helpers", "geofile sub-batch: internal/geoip.File (Data, SubnetByLocation, Refresh, location caches) on oschwald/maxminddb-golang and the repository's test databases"],
+            "stub": ["upstream handler (scripted, tags answers with the forwarded subnet)", "GeoIP (transparent table; the real internal/geoip.File in the geofile sub-batch)"],
             "sim": "clock: testing/synctest fake clock; sequential history",
         },
     },
@@ -343,7 +353,7 @@ PROPS = {
         "cfgs": [""],
         "quick": {"seconds": 30, "chunk": 2000, "runs": 100000},
         "thorough": {"seconds": 900, "chunk": 8000},
-        "rule": "same world; client addresses inside/outside the globally blocked subnet, inside a profile's blocked subnet and its allowed sub-range, with blocked and allowed ASNs; names matching global and per-profile rules (exact, ||domain^, $dnstype=AAAA) and unique harmless names; per-profile access settings drawn per run (blocked/allowed nets and ASNs, name rules); after an access-blocked request the same name is asked again by an allowed client and must reach the upstream; non-trivial = at least one access-blocked request; distinct = distinct decision-sequence hash",
+        "rule": "same world; client addresses inside/outside the globally blocked subnet, inside a profile's blocked subnet and its allowed sub-range, with blocked and allowed ASNs; names matching global and per-profile rules (exact, ||domain^, $dnstype=AAAA) and unique harmless names; per-profile access settings drawn per run (blocked/allowed nets, ASN lists with extra systems in tape-chosen order, name rules); after an access-blocked request the same name is asked again by an allowed client and must reach the upstream; non-trivial = at least one access-blocked request; distinct = distinct decision-sequence hash",
         "assumptions": ['the blocked predicate is written from the statement (global IP, global name, then profile: allowed subnet/ASN overrides blocked subnet/ASN, name rules)', 'requests dropped for other reasons (rate limit, unknown dedicated address) are not judged here'],
         "components": {
             "real": ["dnssvc.NewHandlers stack: initial, ratelimitmw (request info, device finding, access checks, rate-limit gate), preservice, mainmw (filtering, recording), preupstream, ecscache", "internal/dnssvc/internal/devicefinder", "internal/profiledb.Default (fed once by a stub storage)", "internal/access Global and DefaultProfile", "agdpasswd bcrypt authenticator"],
@@ -354,7 +364,7 @@ PROPS = {
     "C15": {
         "parts": [
             {"engine": "sysim", "cfgs": [""], "share": 2, "chunk": 2000},
-            {"engine": "qlogsim", "instrument": "internal/querylog=calls:os\\.OpenFile|WriteTo|\\.Write\\(|f\\.Close|Encode", "cfgs": ["", "sequential"], "share": 1, "chunk": 1500},
+            {"engine": "qlogsim", "instrument": "internal/querylog=calls:os\\.OpenFile|WriteTo|\\.Write(String|Byte|Rune)?$|f\\.Close|Encode|Marshal|Fprint", "cfgs": ["", "sequential"], "share": 1, "chunk": 1500},
         ],
         "quick": {"seconds": 30, "chunk": 2000, "runs": 100000},
         "thorough": {"seconds": 900, "chunk": 8000},
@@ -377,7 +387,8 @@ PROPS = {
         "rule": ("one run = real filter storage (1-3 rule lists from an index with a sprinkling of invalid entries, blocked-service "
                  "index, three hash-prefix filters) downloading version r of every resource in round r = 1..5 from the simulated "
                  "origin; per download a fault from {connection error, stall past the timeout, 404, 500, empty body, body over the "
-                 "size limit, body cut after k bytes, slow body in chunks}: sub-batch '' = random fault sequences (1 in 3 downloads), "
+                 "size limit, body cut after k bytes, slow body in chunks, the whole resource followed by a line of 70000 octets (over every "
+                 "size limit but the hash lists', which fail to parse it)}: sub-batch '' = random fault sequences (1 in 3 downloads), "
                  "'single' = exactly one fault at a tape-chosen download of an otherwise clean history, 'nofault' = none; version r "
                  "of a list consists of marker entries, so which version a component serves, and whether completely, is observable "
                  "through verdicts; crash images of the cache directory at every body chunk and at the yields around temp-file write, "
@@ -404,7 +415,8 @@ PROPS = {
                  "duplicates, CRLF) are reset 1-4 times through the simulated origin, some resets failing and keeping the previous "
                  "list; between resets 3-25 queries: A/AAAA/HTTPS/MX/CNAME for names around every cut-off through the real handler "
                  "stack, and TXT hash-prefix queries with 4- and 8-character prefixes, duplicates, upper case, bad lengths and "
-                 "non-hex; non-trivial = a listed host or a hash hit occurred; distinct = distinct decision hash"),
+                 "non-hex, and TXT names that merely contain a safe-browsing suffix or end with something like it (these must be "
+                 "resolved upstream); non-trivial = a listed host or a hash hit occurred; distinct = distinct decision hash"),
         "assumptions": [
             "the model reads 'up to four labels' as the last four labels of the name including the public suffix's own labels, minus the ICANN public suffix and everything above it",
             "hashes are compared as sets (a name listed twice yields its hash twice)",
